@@ -30,7 +30,7 @@ META = {
             "result shapes and precompile targets. Return types cover every word-sized type (interface, flag, decimal, bytesM, intN) "
             "top level and nested. create_from_blueprint guard: theorem blueprint_guard_exact (the asserts before CREATE revert iff "
             "code_offset >= extcodesize(target), for every constructor-argument length), tied syntactically to the asserts both "
-            "generators emit over args shape x salt x revert_on_failure x code_offset operand (96 sites), plus a pyrevm sweep "
+            "generators emit over args shape x salt x revert_on_failure x code_offset operand (96 sites; every uint256 code_offset), plus a pyrevm sweep "
             "code_offset x target x args x salt x revert_on_failure with the expectation computed from the documented rule.",
     "level_note": "Theorems are about the models; the models are tied by template observation (failure-handling steps) and by "
                   "correspondence on enumerated behaviours (structured corruptions of canonical returndata). Imports C05/C06 models "
@@ -53,7 +53,6 @@ EXT_DEPS = ["C12/ExtCall.v", "C12/Builtins.v", "C12/CallTpl.v"]
 BP_STATIC = ["C12/BpGuard.v", "C12/BpGuardProofs.v", "C12/PropsBpGuard.v"]
 BP_TIE = ["C12/GenBp.v", "C12/TieBp.v", "C12/PropsBpSites.v"]
 BP_DEPS = ["C12/ExtCall.v", "C12/CallTpl.v"]
-BP_WRAP_KEY = "C12:blueprint-code_offset-wraps"
 MAX_REPORTS = 3
 
 
@@ -500,15 +499,9 @@ def run(ctx):
     n_eval += bn
     n_nontriv += bmust
     dist["blueprint_guard_sweep"] = bn
-    wrap_done = False
     for kind, name, detail in breports:
-        if kind == "failing-input" and detail.get("class") == "signed-difference-wraps":
-            # finding on the unchanged tree (notes/C12.md, Findings): code_offset > codesize + 2^255 passes the signed guard
-            n_fail += 1
-            if not wrap_done:
-                wrap_done = True
-                ctx.violation("failing-input", name, detail, key=BP_WRAP_KEY)
-            continue
+        # (class "signed-difference-wraps" = code_offset > codesize + 2^255: finding C12:blueprint-code_offset-wraps, fixed in
+        #  /repo 0e3d467 -- a regression is an ordinary failing input)
         if kind == "failing-input":
             n_fail += 1
             found = True
